@@ -490,7 +490,12 @@ def run(ctx):
     sami_cases = [[[(0, 900), (5000000, 6000000)]], [[(0, 0), (0, 1000)]], [[(0, 999), (999, 1000), (1000, 1000)]],
                   [[(1000, 2000), (2000, 3000), (3001, 4000), (4999, 5000)]], [[(500, 1500.5), (1500.5, 86399999999)]],
                   [[(0, 900), (5000000, 6000000)], [(0, 40000), (40000, 80000)]],
-                  [[(1000000.25, 1999999.75), (2000000.0, 2000999.9999)]]]
+                  [[(1000000.25, 1999999.75), (2000000.0, 2000999.9999)]],
+                  # one language with overlapping / nested cues: the rule holds in caption order (blank syncs may then be
+                  # out of time order in the document; C02 does not demand time order)
+                  [[(1000000, 2500999), (4000000, 5000000), (5000000, 9000000), (7000000, 8000000),
+                    (3600000000, 3661001000), (3660000000, 3662000000)]],
+                  [[(5000000, 9000000), (7000000, 8000000), (1000000, 2000000), (1000000, 2000000)]]]
     for i in range(ctx.n(500, 15000)):
         nl = rng.choice([1, 1, 2, 3])
         langs = [gen_spans(rng, sorted_only=(rng.random() < 0.6)) for _ in range(nl)]
@@ -524,14 +529,19 @@ def run(ctx):
                            all(exact(x[1]) <= exact(y[0]) for x, y in zip(sp, sp[1:])) for sp in langs)
         if not timeline:
             dist["sami_languages_not_a_timeline"] = dist.get("sami_languages_not_a_timeline", 0) + 1
+            if li == 0:     # in the domain: must satisfy the rule
+                dist["sami_first_languages_not_a_timeline_checked"] = \
+                    dist.get("sami_first_languages_not_a_timeline_checked", 0) + 1
         if isinstance(o, Err) or ok != 1:
             shape = "raised" if isinstance(o, Err) else ("float-start" if any("." in x[0] for x in o) else "sync-rule")
-            if shape == "sync-rule" and not set_timeline and sorted(int(x[0]) for x in o if not x[1]) == \
-                    sorted(int(exact(a) // 1000) for (a, b) in spans):
-                # overlapping / unsorted / simultaneous cues in some language of the set: every cue of this language has
-                # its sync at the right ms, but the shared, time-ordered list of syncs cannot convey which blank sync
-                # ends which cue / is put in the wrong place (recorded finding)
-                shape = "non-timeline-cues"
+            rule = sorted([str(x[0]), x[1] == 1] for x in m) if m != BAD_WIRE else None
+            if shape == "sync-rule" and li > 0 and not set_timeline and rule is not None \
+                    and sorted([str(x[0]), bool(x[1])] for x in o) == rule:
+                # a FURTHER language (its syncs are inserted into the shared list by time, _find_closest_sync) in a set
+                # that is not a timeline: exactly the syncs of the rule are written, but in another document order than
+                # the caption order (recorded finding).  The first language, whatever its shape, and every language
+                # of a timeline set must satisfy the rule as it stands.
+                shape = "later-language-sync-order"
             res["violations"].append({
                 "kind": "sami-" + shape, "writer": "sami",
                 "what": "SAMI writer: syncs %s of language %s do not convey the cues %s (integer ms start, blank sync at "
@@ -561,9 +571,10 @@ def run(ctx):
                    "MicroDVD lines split by the caption counts, surplus lines kept); WebVTT writes one language (declared "
                    "decision). Oracle: ok_cues - SRT / legacy / single-position MAY merge runs, WebVTT MAY repeat a cue, "
                    "DFXP / MicroDVD exactly one cue per caption. Structural differences from the model (cue counts, SAMI "
-                   "sequence) are correspondence disagreements, spelling differences are counted. SAMI sets that are not "
-                   "timelines (overlapping / unsorted / repeated cues in a language): own failure-keyed kind, known "
-                   "finding. Non-trivial: distinct (writer, start, end) with start >= 1 min or a sub-millisecond part; SAMI "
+                   "sequence) are correspondence disagreements, spelling differences are counted. SAMI: the FIRST language of "
+                   "a set must satisfy the sync rule whatever its shape (overlapping, nested, unsorted, repeated cues); a "
+                   "FURTHER language of a set that is not a timeline whose syncs are exactly the rule's but in another "
+                   "document order: own failure-keyed kind, known finding. Non-trivial: distinct (writer, start, end) with start >= 1 min or a sub-millisecond part; SAMI "
                    "lists with >= 2 cues.")
     res["clauses"] = {
         "theorem": ["shared formatter / WebVTT formatter: printed fields parse (independent parser) to floor(rhe t/1000) ms, "
